@@ -21,7 +21,7 @@ func init() {
 		Rule: "one evaluation = a fresh server whose Run is started while 1..8 pollers spin on Ready(); the first poller iteration that observes true immediately dials the address and performs a verified bind, and " +
 			"keeps dialing at PRNG-chosen later instants until Stop is called. Addresses cover IPv4, hostname, bracketed and unbracketed IPv6 loopback and the empty-host form. Failing addresses (empty, no port, IP literals of the documentation ranges that are not assigned to the host, " +
 			"bracket errors, invalid IPv4, unresolvable host, a port the harness keeps bound, a port served by another running gldap server, and a TLS configuration without certificates) must make Run return an error while Ready() - polled during the call and for a while after - never reports true. " +
-			"Between Ready and Stop the harness also lets Accept fail temporarily (descriptor shortage), keeps 300/520/1100 idle connections open and parks silent peers on a TLS listener: a new connection must still be served within 10s afterwards / meanwhile. Runs under GOMAXPROCS 1, 4 and 16. A refused dial after an observed true is a logical fact, not a timing judgement. " +
+			"Between Ready and Stop the harness also lets Accept fail temporarily (descriptor shortage), stops another server that shares the mux (and starts a new one on that mux), keeps 300/520/1100 idle connections open and parks silent peers on a TLS listener: a new connection must still be served within 10s afterwards / meanwhile. Runs under GOMAXPROCS 1, 4 and 16. A refused dial after an observed true is a logical fact, not a timing judgement. " +
 			"distinct_nontrivial = distinct (address form, #pollers, GOMAXPROCS, whether a poller saw false before true) combinations",
 		Assume: []string{"the address is dialled exactly as it was passed to Run (for the empty-host form, 127.0.0.1)"},
 		Phases: func(tier string, seed int64) []Phase {
@@ -31,7 +31,7 @@ func init() {
 			}
 			return ps
 		},
-		MinObserved: []string{"startups", "dials_after_ready_true", "failing_addresses_checked", "pollers_saw_false_before_true", "served_after_accept_failure_episodes", "served_next_to_silent_tls_peers", "served_while_an_onclose_callback_runs", "served_after_idling_longer_than_the_read_timeout", "served_by_a_second_run_after_a_failed_one", "served_next_to_hundreds_of_idle_connections"},
+		MinObserved: []string{"startups", "dials_after_ready_true", "failing_addresses_checked", "pollers_saw_false_before_true", "served_after_accept_failure_episodes", "served_next_to_silent_tls_peers", "served_while_an_onclose_callback_runs", "served_after_idling_longer_than_the_read_timeout", "served_by_a_second_run_after_a_failed_one", "served_next_to_hundreds_of_idle_connections", "served_after_another_server_on_the_same_mux_was_stopped"},
 	})
 }
 
@@ -358,6 +358,39 @@ func c17Disturbances(c *Ctx) {
 		c.Count("served_after_accept_failure_episodes", 1)
 		srv.StopWithin(patience)
 
+		// two servers of one application share one mux (an ldap and an ldaps listener, or a restart on the same routes):
+		// that one of them is stopped says nothing about the other, nor about a later server on the same mux
+		if sm, err := gldap.NewMux(); err == nil {
+			bindOK(sm)
+			a, errA := startSrv(SrvCfg{}, nil)
+			b, errB := startSrv(SrvCfg{}, nil)
+			if errA == nil && errB == nil && a.S.Router(sm) == nil && b.S.Router(sm) == nil {
+				if err := c17Served(a.Addr, nil, bound); err != nil {
+					c.Inconclusive("shared mux, first server: " + err.Error())
+				}
+				a.StopWithin(patience)
+				if err := c17Served(b.Addr, nil, bound); err != nil && b.S.Ready() {
+					c.Violate("Ready() was true but a connection attempt failed or was not served", fmt.Sprintf("two servers share one mux; after the OTHER one was stopped this one - Ready()=true, never stopped - does not serve a new connection within %s: %v", bound, err), map[string]any{"episode": ep})
+				} else if err == nil {
+					c.Count("dials_after_ready_true", 1)
+					c.Count("served_after_another_server_on_the_same_mux_was_stopped", 1)
+				}
+				// ... and a fresh server takes over the stopped one's address with the same mux
+				if n, err := startSrv(SrvCfg{Addr: a.Addr}, nil); err == nil {
+					if n.S.Router(sm) == nil {
+						if err := c17Served(n.Addr, nil, bound); err != nil && n.S.Ready() {
+							c.Violate("Ready() was true but a connection attempt failed or was not served", fmt.Sprintf("a new server on the mux (and address) of a stopped one: Ready()=true, yet no new connection is served within %s: %v", bound, err), map[string]any{"episode": ep})
+						} else if err == nil {
+							c.Count("dials_after_ready_true", 1)
+						}
+					}
+					n.StopWithin(patience)
+				}
+				b.StopWithin(patience)
+			} else {
+				c.Inconclusive(fmt.Sprintf("shared-mux servers: %v %v", errA, errB))
+			}
+		}
 		// hundreds of connections that are open and idle: the next client is served like the first one
 		if isrv, err := startSrv(SrvCfg{}, bindOK); err == nil {
 			nIdle := []int{300, 520, 1100}[ep%3]
